@@ -144,8 +144,17 @@ func AppendFloat(b []byte, f float64, prec int) []byte {
 	if prec < 0 || 17 < prec {
 		prec = 17 // maximum number of significant digits in double
 	}
-	prec -= float64exp(f) // number of digits in front of the dot
-	f *= math.Pow10(prec)
+	exp10 := float64exp(f)
+	if f < math.Pow10(exp10) {
+		exp10-- // the estimate from the binary exponent can be one too high
+	}
+	prec -= exp10 // number of digits in front of the dot
+	if 308 < prec {
+		f *= 1e308 // math.Pow10 is +Inf above 308
+		f *= math.Pow10(prec - 308)
+	} else {
+		f *= math.Pow10(prec)
+	}
 
 	// calculate mantissa and exponent
 	mant := int64(f)
